@@ -267,6 +267,11 @@ def check(chk: Check) -> None:
         chk.require(ok, R2, key, wh, det)
     for key, (ok, wh, det) in sorted(amp_seen.items()):
         chk.require(ok, R3, key, wh, det)
+    from . import common as _common
+    for label, wh, text in _common.default_factory_dicts(chk):
+        chk.bad(R3, '%s returns a dict with a default factory' % label, wh,
+                'the program receives `%s`: every read of a new key adds an entry, and reads are not preceded by a size check - the dict '
+                'grows past the cap one lookup at a time' % text)
 
 
 def _rel_of(F, fn: str, default_fi) -> str:
